@@ -127,7 +127,7 @@ REGISTRY = {
         "technique": "runtime monitoring: snapshot invariant + syscall-log audit + differential prediction oracle",
         "parts": [K.cli_c10],
         "rule": "C05-style workspaces incl. failing series x threads 1/4 x backup modes x -q/default/-v x prior applied state x goal. Non-trivial: the corresponding real run changes the working directory.",
-        "floor": floors(("real-run-writes-something", 200), ("dry-runs:exit=1", 100), ("dry-runs:exit=0", 100), ("syscalls-audited", 10000)),
+        "floor": floors(("real-run-writes-something", 200), ("dry-runs:exit=1", 100), ("dry-runs:exit=0", 100), ("syscalls-audited", 10000), ("dry-runs-under-a-forced-flag-order", 20)),
     },
     "C11": {
         "level_text": 'parser and follow-up application run on bounded-exhaustive line sequences, numeric extremes, mutants; panics caught, allocations counted, aborts/hangs attributed per case',
@@ -170,7 +170,7 @@ REGISTRY = {
         "rule": "baseline -q vs --mmap / default verbosity / -v / -vv / --color always|never / --stats / -A multiapply and combinations, over random series incl. failing ones, "
                 "zero-length source files, zero-length patch files, empty series, everything already applied, goal naming an applied patch; threads 1/4; backup always/default/never. "
                 "Non-trivial: the run fails or has at least one patch to apply; distinct by (workspace, shape, option set, configuration).",
-        "floor": floors(("shape:empty-source", 50), ("shape:empty-patch", 50), ("shape:empty-series", 50), ("shape:all-applied", 50), ("shape:goal-applied", 50), ("failing-series", 200), ("options:--mmap", 100)),
+        "floor": floors(("shape:empty-source", 50), ("shape:empty-patch", 50), ("shape:empty-series", 50), ("shape:all-applied", 50), ("shape:goal-applied", 50), ("shape:symlinked-source", 50), ("shape:symlinked-patch", 50), ("failing-series", 200), ("options:--mmap", 100)),
     },
     "C15": {
         "level_text": "real pushes under strace on a workspace whose files are hard-linked into a twin tree; inode identity, twin content and every syscall on bystander files are checked",
@@ -179,7 +179,7 @@ REGISTRY = {
         "parts": [K.cli_c15, K.san_c15],
         "rule": "modify/truncate/delete/rename/mode change, failing series (files re-saved after rollback), both loaders, threads 1/4; three bystander files that no patch names. "
                 "Non-trivial: at least one file was replaced.",
-        "floor": floors(("files-replaced", 500), ("bystanders-verified", 1000), ("failing-series-(files-resaved-after-rollback)", 50)),
+        "floor": floors(("files-replaced", 500), ("bystanders-verified", 1000), ("failing-series-(files-resaved-after-rollback)", 50), ("runs-with-an-injected-output-fault", 100)),
     },
     "C16": {
         "level_text": "real pushes of series files in random accepted spellings, and of directed workspaces enumerating the 16 combinations of old/new name state; the resulting tree and .pc entries are compared with ground truth",
